@@ -148,3 +148,12 @@ def run(res, facts, tier):
     from . import c08_html
     c08_html.run(res, facts, tier)
     res.assume('C08: which HTML elements are block / inline is taken from the event, not from content models; script / style / pre content, the META tag, URL escaping and tree equality of the outputs are behavioural and not decided')
+
+
+_run_c08_prev_text = run
+
+
+def run(res, facts, tier):
+    _run_c08_prev_text(res, facts, tier)
+    from . import c08_text
+    c08_text.run_rule(res, facts, tier)
